@@ -180,6 +180,21 @@ def run_case(case):
         return dict(nontrivial=False, violations=viol, cov=cov, counters=counters)
     exp_n = nrows if limit is None else min(limit, nrows)
     # expected outcome for schema casting with an offending row
+    if not got.ok and fam == 'cast_schema' and policy == 'raise':
+        # which row is the first one the INFERRED schema rejects? (the sample may be inferred more narrowly than the
+        # generator intended, e.g. a column of 0/1 as boolean): take the schema from the same load without casting
+        kw2 = dict(kw, cast_strategy=d.load.CAST_DO_NOTHING)
+        kw2.pop('on_error', None)
+        probe = lab.run([d.load(path, **kw2)], via='datastream')
+        if probe.ok:
+            fo = tableschema.Schema(probe.dp['resources'][0]['schema']).fields
+            for i_, cells in enumerate(rows):
+                try:
+                    for f_, c_ in zip(fo, cells):
+                        f_.cast_value(c_.strip() if strip and isinstance(c_, str) and False else c_)
+                except CastError:
+                    bad_rows = set(bad_rows) | {i_}
+                    break
     if not got.ok:
         if fam == 'cast_schema' and policy == 'raise' and any(i < exp_n for i in bad_rows):
             c = getattr(got.exc, 'cause', got.exc)   # datastream(): the raw exception, not wrapped
